@@ -166,6 +166,37 @@ pub fn run(ctx: &Ctx) -> i32 {
             }
         }
     });
+    // A6: long valid streams (length sweep fills) with single-codeword deviations and truncations
+    let long = gen::es_e_sparse();
+    let nl = long.size();
+    ctx.par(nl, |c, w| {
+        w.label(|| format!("deviations of long valid streams, input {}", c));
+        let mut input = Vec::new();
+        long.get(c, &mut input);
+        let cfg = Cfg::plain();
+        if let common::Enc::Ok(dm) = common::encode(&cfg, &input) {
+            let mut cw = dm.data_codewords().to_vec();
+            let n = cw.len();
+            let mut positions = vec![0usize, 1, 2, n / 2, n.saturating_sub(3), n.saturating_sub(2), n.saturating_sub(1)];
+            for p in [248usize, 249, 250, 251, 252, 253] {
+                positions.push(p);
+            }
+            positions.retain(|p| *p < n);
+            positions.sort_unstable();
+            positions.dedup();
+            for p in positions {
+                let old = cw[p];
+                for v in CW24 {
+                    if v != old {
+                        cw[p] = v;
+                        w.check(n as u64, || sdesc(&cw), |st| eval_stream(&cw, st));
+                    }
+                }
+                cw[p] = old;
+                w.check(p as u64, || sdesc(&cw[..p]), |st| eval_stream(&cw[..p], st));
+            }
+        }
+    });
     // B: error correction on words around and beyond the radius
     let jobs = c09::jobs(ctx.tier);
     rs::run_jobs(ctx, &jobs, |job, _orig, recv, _info, w| {
@@ -238,7 +269,7 @@ pub fn run(ctx: &Ctx) -> i32 {
         "evaluations": ctx.evaluations(),
         "distinct_nontrivial": ctx.counter("nontrivial"),
         "rule": format!("decode_data + decode_str: all codeword strings of length <= 3 over all 256 values; length 4..={} over a 24-value class alphabet; all designators [241,a,b,c,66]; ECI 0..63 x every byte in ASCII/upper-shift and Base256 carriage; \
-every single-codeword replacement (24 class values) and every truncation of valid streams of the crate's encoder (sigma10 strings of length <= {} x 18 mode sets x FNC1). decode_error: the RS families of C09 on all 48 sizes. \
+every single-codeword replacement (24 class values) and every truncation of valid streams of the crate's encoder (sigma10 strings of length <= {} x 18 mode sets x FNC1), and the same at 13 positions of long valid streams (fills of up to 3119 bytes). decode_error: the RS families of C09 on all 48 sizes. \
 try_from_bits + DataMatrix::decode: (width, length) lattice 0..=150 x 0..=150 with uniform contents; every single (and neighbouring double) module flip of a valid symbol of every size; garbage contents under a valid finder. \
 Oracle: returns a value or an error - no panic (catch_unwind), no hang (watchdog). All cases are distinct by construction; non-trivial = the input is rejected with an error by at least one entry point (a genuinely malformed input that reached the error paths). Build profile of this pass: {}.",
             ctx.tier.pick(5, 6), ctx.tier.pick(3, 4), if cfg!(debug_assertions) { "release + debug-assertions + overflow-checks" } else { "plain release" }),
